@@ -239,6 +239,8 @@ const (
 	ReplaceAll
 	AddAKA
 	RemoveAKA
+	ReplaceNote // ietf-json-patch: replace /note (fails to apply when the member is absent)
+	RemoveNote  // ietf-json-patch: remove /note (fails to apply when the member is absent)
 )
 
 // PatchDesc is the symbolic description of one generated patch.
@@ -341,6 +343,10 @@ func ToPatch(d PatchDesc) (patch.Patch, error) {
 		return patch.NewJSONPatch(fmt.Sprintf(`[{"op":"add","path":"/note","value":%q}]`, d.Mark))
 	case FailTest:
 		return patch.NewJSONPatch(`[{"op":"remove","path":"/doesNotExist/x"}]`)
+	case ReplaceNote:
+		return patch.NewJSONPatch(fmt.Sprintf(`[{"op":"test","path":"/note","value":%q},{"op":"replace","path":"/note","value":%q}]`, d.IDs[0], d.Mark))
+	case RemoveNote:
+		return patch.NewJSONPatch(`[{"op":"remove","path":"/note"}]`)
 	case ReplaceAll:
 		doc := `{"publicKeys":[`
 
